@@ -122,9 +122,11 @@ def build(ld, prog, fns=None, stage_prefix='s', hook=None):
                 ds = ds[list(ks) if kind == 'keylist' else tuple(ks)]
         elif k == 'concat3':
             mid, last = (build(ld, x, fns, stage_prefix=stage + 'c')
-                         for x in refmodel.concat3_operands(op[1]))
+                         for x in refmodel.concat3_operands(op[1], op[2]))
             form = op[2]
-            if form == 'method':
+            if form.startswith('method-empty') or form.startswith('method-all'):
+                ds = ds.concatenate(mid, last)
+            elif form == 'method':
                 ds = ds.concatenate(mid, last)
             elif form == 'method-list':
                 ds = ds.concatenate([mid, last])
@@ -205,7 +207,7 @@ def build(ld, prog, fns=None, stage_prefix='s', hook=None):
                     m = None
                 elif k == 'concat3':
                     m = refmodel.apply(m, op, tuple(
-                        refmodel.run(x) for x in refmodel.concat3_operands(op[1])))
+                        refmodel.run(x) for x in refmodel.concat3_operands(op[1], op[2])))
                 elif k in refmodel.NARY:
                     m = refmodel.apply(m, op, refmodel.nary_operands(m, op))
                 else:
@@ -267,6 +269,8 @@ def alphabet(n, kind, small=False):
             ('apply_eager', 'h'), ('apply_lazy', 'h')]
     ops += [('concat3', kind, 'method'), ('concat3', kind, 'method-list'),
             ('concat3', kind, 'function'), ('concat3', kind, 'function-tuple'),
+            ('concat3', kind, 'method-empty-last'), ('concat3', kind, 'method-all-empty'),
+            ('concat', refmodel.EMPTY_DICT if kind == 'dict' else refmodel.EMPTY_LIST),
             ('groupby', 2, 0), ('groupby', 2, 1), ('groupby', 3, 2),
             ('intersperse3', kind, 'method'), ('intersperse3', kind, 'function'),
             ('zip3', kind, 'method'), ('zip3', kind, 'function'),
